@@ -362,6 +362,9 @@ pub enum Step {
   Emit(usize, Ev),
   /// advance the virtual clock by n ticks
   Advance(u64),
+  /// advance the clock and fire the due timers, but do not run the executor
+  /// (the woken tasks run after the next emission)
+  AdvanceNoRun(u64),
   /// jump to the next pending timer and fire it
   FireNext,
   /// run the executor until stalled (FIFO order)
@@ -540,6 +543,7 @@ pub fn step_short(s: &Step) -> String {
   match s {
     Step::Emit(i, e) => format!("in{}:{}", i, ev_short(e)),
     Step::Advance(n) => format!("+{n}t"),
+    Step::AdvanceNoRun(n) => format!("+{n}t(no-run)"),
     Step::FireNext => "fire".into(),
     Step::Run => "run".into(),
     Step::RunReady(k) => format!("run#{k}"),
